@@ -34,6 +34,13 @@ def run(repo, run, tier):
     # the step a system takes is ITS OWN object: orientation rebinds `-self.__dt` (an in-place `*= -1` writes into an array another system built from the same dt shares)
     from .c03 import orientation_preserves_magnitude
     orientation_preserves_magnitude(repo, run, IntegrateModel(repo), rule_id="C04.9")
+    # 'every recorded step has the requested size': nothing but the constructor, the dt setter, reset(), integrate() and the orientation helper stores the step
+    # (a change of method must not put the constructor's step back over one assigned later)
+    from ..report import Rejudged
+    from .c20 import who_stores_dt
+    rj = Rejudged(run, {"C20.10": "C04.11"}, note="re-judged for C04")
+    who_stores_dt(repo, rj)
+    rj.finish_rejudge()
 
 
 def kind_rules(repo, run, rid="C04.1"):
